@@ -74,6 +74,17 @@ class WireManagerBase(abc.ABC):
             wire_descriptions = [str(wire) for wire in self.wires]
             raise InconsistentGradingsError(f"Inconsistent counts on wires {wire_descriptions} ({counts})")
 
+        # wires of other blocks at the same spot must be graded the same
+        for wire in self.wires:
+            for coincident in wire.coincidents:
+                grading = coincident.grading if coincident.is_aligned(wire) else coincident.grading.inverted
+
+                if wire.grading != grading:
+                    raise InconsistentGradingsError(
+                        f"Inconsistent gradings on coincident wires {wire} and {coincident} "
+                        f"({wire.grading}, {grading})"
+                    )
+
 
 class WireChopManager(WireManagerBase):
     """Responsible for conversion of user-specified Chops
